@@ -261,6 +261,10 @@ impl SearchHook for Hook {
     fn board(&mut self, when: &'static str, fen: &str) {
         self.announce();
         if when == "before_search" {
+            // for the abort handler: what this search thread is working on
+            set_current_case(&format!("engine search, position held by the search thread: {}", fen));
+        }
+        if when == "before_search" {
             let mut c = self.shared.counters.lock().unwrap();
             *c = Counters::default();
         }
